@@ -184,3 +184,19 @@ func OpsFragment() *Fragment {
 		Weight: StructuralWeight,
 	}
 }
+
+// ChainFragment: long postfix chains (dot, index, slice, [*], .*, [], filters
+// with fixed conditions) with pipes and || as terminators — the place where
+// projection scope is decided. Small alphabet, so chains of 5-6 steps are reached.
+func ChainFragment() *Fragment {
+	return &Fragment{
+		Idents:      Tks("a"),
+		Leaves:      Tks("@"),
+		Nums:        Tks("0"),
+		Slices:      [][]model.Tok{Tks("1", ":")},
+		Star:        true, WildIdx: true, Flatten: true, Filter: true, Dot: true, Pipe: true, Or: true, Paren: true,
+		FilterConds: [][]model.Tok{Tks("a"), Tks("@")},
+		MaxList:     1,
+		Weight:      StructuralWeight,
+	}
+}
